@@ -272,6 +272,11 @@ def rules(rep):
     want = ["packedopts", "&os[(opts[opt_found].olen+1)]", "argv[post++optind]"]
     ok = sorted(src) == sorted(want)
     d = ""
+    # the argument is the text as it was given: once taken from one of the three sources the pointer is not moved
+    moved = [e for e in f.all_elems() if ((e.is_assign and e.op != "=") or e.is_incdec) and sh(norm(e.kid(0))) == "optarg"]
+    rep.check(not moved, "Q6-args", "the option argument is handed over as found: optarg is only ever assigned one of its sources", (moved[0].where if moved else f.loc),
+              "`%s` moves the argument pointer after it was taken: part of the argument's text is dropped" % (moved[0].text[:40] if moved else ""),
+              function=f.name, construct="arg-verbatim")
     if ok:
         a0, a1, a2 = (atoms_at(f, src[k]) for k in want)
         ok = HAS in a0 and ("!=", "packedopts", "0") in a0
